@@ -1385,6 +1385,8 @@ unsigned char* SZ_compress_customize(const char* cmprName, void* userPara, int d
 		sz_maybe_init_with_user_params(userPara, confparams_cpr);
 		size_t n = computeDataLength(r5, r4, r3, r2, r1);
 		result = SZ_compress(dataType, transData, outSize, 0, 0, 0, 0, n);
+		free(transData);
+		*status = SZ_SCES;
 	}
     else if(strcmp(cmprName, "ExaFEL")==0){
     	assert(dataType==SZ_FLOAT);
@@ -1446,6 +1448,7 @@ unsigned char* SZ_compress_customize_threadsafe(const char* cmprName, void* user
 		size_t n = computeDataLength(r5, r4, r3, r2, r1);
 
 		result = SZ_compress_args(dataType, transData, outSize, para->errorBoundMode, para->absErrBound, para->relBoundRatio, para->pw_relBoundRatio, 0, 0, 0, 0, n);
+		free(transData);
 
 		*status = SZ_SCES;
 	}
@@ -1482,7 +1485,7 @@ unsigned char* SZ_compress_customize_threadsafe(const char* cmprName, void* user
 void* SZ_decompress_customize(const char* cmprName, void* userPara, int dataType, unsigned char* bytes, size_t byteLength, size_t r5, size_t r4, size_t r3, size_t r2, size_t r1, int *status)
 {
 	void* result = NULL;
-	if(strcmp(cmprName, "SZ2.0")==0 || strcmp(cmprName, "SZ")==0 || strcmp(cmprName, "SZ1.4")==0)
+	if(strcmp(cmprName, "SZ2.0")==0 || strcmp(cmprName, "SZ2.1")==0 || strcmp(cmprName, "SZ")==0 || strcmp(cmprName, "SZ1.4")==0)
 	{
 		result = SZ_decompress(dataType, bytes, byteLength, r5, r4, r3, r2, r1);
 		* status = SZ_SCES;
@@ -1492,6 +1495,8 @@ void* SZ_decompress_customize(const char* cmprName, void* userPara, int dataType
 		size_t n = computeDataLength(r5, r4, r3, r2, r1);
 		void* tmpData = SZ_decompress(dataType, bytes, byteLength, 0, 0, 0, 0, n);
 		result = detransposeData(tmpData, dataType, r5, r4, r3, r2, r1);
+		free(tmpData);
+		*status = SZ_SCES;
 	}
   	else if(strcmp(cmprName, "ExaFEL")==0){
     	assert(dataType==SZ_FLOAT);
